@@ -405,6 +405,80 @@ def exec_pressure_family():
              'predicate B3(real slack) : Interval { duration >= 3.0; slack >= 0.0; }', 'goal a = new A();',
              '{ goal b1 = new B1(); b1.start >= a.start + 4.0; } [1.0] or { goal b3 = new B3(); b3.start >= a.start + %s; b3.start <= a.start + %s + b3.slack; } [3.0]' % (f(lo), f(hi))]
         out.insert(0, ('fe_slack_%d_%d' % (lo, hi), ['\n'.join(L) + '\n'], True))
+    # an atom that is over early (an impulse, or a short interval) tied to the start of a later interval through a margin that
+    # a free variable can stretch: when the client delays the later start the margin must stretch - what has been executed
+    # must not move (and must not be dispatched a second time)
+    for kind in ('impulse', 'interval'):
+        for s0 in (4, 6):
+            for mode in ('fact', 'goal'):
+                for host in ('class', 'top'):
+                    early = 'predicate Ping() : Impulse { }' if kind == 'impulse' else 'predicate Ping() : Interval { duration >= 1.0; duration <= 1.0; }'
+                    late = 'predicate Drive() : Interval { duration >= 2.0; }'
+                    if host == 'class':
+                        L = ['class Rover {', '  ' + early, '  ' + late, '}', 'Rover r = new Rover();',
+                             '%s ping = new r.Ping();' % mode, 'goal drive = new r.Drive();']
+                    else:
+                        L = [early, late, '%s ping = new Ping();' % mode, 'goal drive = new Drive();']
+                    t = 'ping.at' if kind == 'impulse' else 'ping.end'
+                    L += ['drive.start >= %s;' % f(s0), 'real margin;', 'margin >= 0.0;', 'margin <= 10.0;',
+                          '%s + margin >= drive.start - 1.0;' % t]
+                    out.insert(0, ('fe_early_%s_%d_%s_%s' % (kind, s0, mode, host), ['\n'.join(L) + '\n'], True))
+    return out
+
+
+def inactive_family():
+    """C04 / C05: timelines with atoms that stay OUT of the plan (in the branch of a disjunction that is not chosen) but share a
+    variable with a later decision: an atom a fixed on the timeline, a second one b that a decision puts on top of it (or far
+    away, dearer), a third one c in a branch that is not taken whose start is a variable x, and a last disjunction over x. The
+    change of x wakes the listeners of c although it is not active; the overlap of a and b must still be repaired.
+    (name, parts, None)"""
+    out = []
+    for host in ('rr', 'sv'):
+        for (bs, xs, order) in itertools.product((5, 8), ((5, 7), (2, 12)), ('abcx', 'axbc', 'cabx')):
+            if host == 'rr':
+                head = ['ReusableResource r = new ReusableResource(1.0);']
+                new = lambda args: 'new r.Use(%samount: 1.0)' % ((args + ', ') if args else '')
+            else:
+                head = ['class Dock : StateVariable { predicate Busy() { } }', 'Dock r = new Dock();']
+                new = lambda args: 'new r.Busy(%s)' % args
+            A = 'fact a = %s;' % new('start: 0.0, end: 10.0')
+            B = ('{ fact b = %s; b.start >= %s; b.duration == 10.0; } [5.0] or { fact b = %s; } [50.0]'
+                 % (new(''), f(bs), new('start: 40.0, end: 50.0')))
+            C = '{ x <= 1000.0; } [0.0] or { goal c = %s; c.duration == 1.0; } [20.0]' % new('start: x')
+            X = '{ x >= %s; } [0.0] or { x >= %s; } [1.0]' % (f(xs[0]), f(xs[1]))
+            body = {'a': A, 'b': B, 'c': C, 'x': X}
+            L = head + ['real x;'] + [body[k] for k in order]
+            out.append(('fn_%s_%d_%d_%s' % (host, bs, xs[0], order), ['\n'.join(L) + '\n'], None))
+    return out
+
+
+def unify_family():
+    """C02 / C03 / C01: goals that can only be achieved by unifying with a fact (their own rule cannot be applied): the
+    parameters of both atoms are ranged variables (or constants), of type real, int or tp; the problem has a solution
+    exactly when the ranges meet; every pair of ranges in both roles. (name, parts, solvable)"""
+    out = []
+    ranges = [((0, 5), (3, 10)), ((0, 2), (3, 5)), ((0, 3), (3, 5)), ((0, 10), (3, 5)), ((2, 2), (0, 5)), ((4, 4), (4, 4)), ((1, 1), (2, 2))]
+    ranges = ranges + [(b, a) for (a, b) in ranges if a != b]
+    for ptype in ('real', 'int', 'tp'):
+        num = (lambda v: str(v)) if ptype == 'int' else f
+        big = '100' if ptype == 'int' else '100.0'
+        for k, ((a, b), (c, d)) in enumerate(ranges):
+            for two in (False, True):
+                ok = max(a, c) <= min(b, d)
+                L = ['predicate P(%s x%s) { x >= %s; }' % (ptype, (', %s y' % ptype) if two else '', big)]
+
+                def decl(nm, lo, hi):
+                    if lo == hi and k % 2 == 0 and ptype != 'tp':
+                        return [], num(lo)          # a constant argument
+                    return ['%s %s;' % (ptype, nm), '%s >= %s;' % (nm, num(lo)), '%s <= %s;' % (nm, num(hi))], nm
+                d1, a1 = decl('lo', a, b)
+                d2, a2 = decl('hi', c, d)
+                L += d1 + d2
+                if two:        # the second parameter always meets
+                    L += ['%s w; w >= %s; w <= %s;' % (ptype, num(0), num(9)), '%s z; z >= %s; z <= %s;' % (ptype, num(9), num(12))]
+                L.append('fact f0 = new P(x:%s%s);' % (a1, ', y:w' if two else ''))
+                L.append('goal g0 = new P(x:%s%s);' % (a2, ', y:z' if two else ''))
+                out.append(('fu_%s_%d%s' % (ptype, k, '_2' if two else ''), ['\n'.join(L) + '\n'], ok))
     return out
 
 
